@@ -428,7 +428,9 @@ func (p *PsUnpacker) parseAvStream(code int, rtpts uint32, rb []byte, index int)
 						}
 					}
 				} else {
+					// 当前pes包没有pts，沿用同一帧前一个pes包的pts和dts
 					pts = p.preAudioPts
+					dts = p.preAudioDts
 				}
 			} else {
 				if pts != p.preAudioPts && p.preAudioPts >= 0 {
